@@ -250,7 +250,14 @@ def verify_all(units, only=None, engine_kw=None):
                     try:
                         # extraction drops decorators: the call convention the contracts rely on is an obligation of its own
                         # (a plain property is evaluated at every read; a cached one would keep a stale unit after an in-place conversion)
-                        eng_.oblige(f"{qual}/call convention: decorators {ex.decorators} are {want_deco}", ex.decorators == want_deco, kind="post")
+                        if ex.decorators == want_deco:
+                            eng_.oblige(f"{qual}/call convention: decorators {ex.decorators} are {want_deco}", True, kind="post")
+                        elif any("cache" in d for d in ex.decorators):
+                            # memoised on an object whose value is converted IN PLACE by to(): the second read is stale (refutes the
+                            # callers' contracts, which read the attribute afresh at every use)
+                            eng_.oblige(f"{qual}/call convention: decorators {ex.decorators} are {want_deco}", False, kind="post")
+                        else:
+                            eng_.undecided(f"{qual}/call convention", f"decorators {ex.decorators} are not the ones the contracts were written for ({want_deco})")
                         run_case(I, ex.node, qual, kind, method, build)
                     except Unsupported as e:
                         eng_.undecided(f"{fn}/unsupported", str(e))
